@@ -1,12 +1,29 @@
 """C10, whole-simulation part: the contract of every decision returned by the bundled policies during generated simulations
-(live cluster and task states unchanged, one decision per task, offered tasks answered, existing pool, time >= now)."""
+(live cluster and task states unchanged, one decision per task, offered tasks answered, existing pool, time >= now, and the
+chosen strategy fits the named worker when that worker is empty)."""
+import json
+import os
+
+import core
 import simcheck
+import simcommon
 import simmon
 
 TRUSTED = simcheck.TRUSTED_SIM
 
 
 def run(ctx):
-    simcheck.run_sim_property(ctx, [], simmon.mon_c10,
+    seen = []
+    simcheck.run_sim_property(ctx, [], lambda r, w: simmon.mon_c10(r, w, seen),
                               "a policy's schedule() changed the live cluster or a task, answered a task twice or not at all, "
-                              "or returned a placement naming no pool / a time before now", machine=False)
+                              "or returned a placement naming no pool / a time before now / a worker that can never hold the strategy",
+                              machine=False)
+    ctx.cov.setdefault("input_distribution", {})["decisions_matching_known_finding_F37"] = len(seen)
+    for k in core.load_known():
+        if k.get("status") == "known" and k.get("property") == "C10" and k.get("id") == "F37":
+            w = json.load(open(os.path.join(core.ROOT, k["witness"])))
+            r = simcommon.run_worlds([w], jobs=1, chunk=1)[0]
+            hits = []
+            simmon.mon_c10(r, w, hits)
+            if hits:
+                ctx.known("F37", k["what_fails"])
